@@ -22,7 +22,11 @@ pub struct Plan {
 pub fn standard_plan(tier: Tier, scale: u64) -> Plan {
     let mut families: Vec<(Box<dyn Family>, u8)> = vec![];
     for f in three_man_families() {
-        families.push((Box::new(f), 1));
+        // quick: the bishop / knight sets are judged without their children (their children are
+        // again bishop / knight or bare-king positions of the same complete sets)
+        let minor = f.men.iter().any(|m| m.0 == Kind::B || m.0 == Kind::N);
+        let cd = if tier == Tier::Quick && minor { 0 } else { 1 };
+        families.push((Box::new(f), cd));
     }
     match tier {
         Tier::Quick => {
@@ -110,8 +114,9 @@ pub fn run_plan<O: PosOracle>(run: &Arc<Run>, oracle: &Arc<O>, plan: &Plan) {
             run.cap(format!("wall-clock budget reached before the depth-{d} tree group ({} roots) was explored", rs.len()));
             continue;
         }
+        let t0 = run.elapsed();
         let st = explore_tree(run, oracle, rs, *d, plan.dfs);
-        tree_notes.push(json!({"depth": d, "roots": rs.len(), "unique_states": st.unique, "arrivals": st.generated}));
+        tree_notes.push(json!({"depth": d, "roots": rs.len(), "unique_states": st.unique, "arrivals": st.generated, "seconds": run.elapsed() - t0}));
         if let Some(r) = rs.first() {
             run.sample(json!({"kind": "tree root", "fen": r.fen(), "explored_to_depth": d}));
         }
@@ -128,8 +133,9 @@ pub fn run_plan<O: PosOracle>(run: &Arc<Run>, oracle: &Arc<O>, plan: &Plan) {
             run.cap(format!("wall-clock budget reached before family '{}' was enumerated", f.name()));
             continue;
         }
+        let t0 = run.elapsed();
         let n = sweep_family(run, oracle, f.size(), |i| f.get(i), *cd);
-        fam_notes.push(json!({"family": f.name(), "index_space": f.size(), "valid_members": n, "child_depth": cd}));
+        fam_notes.push(json!({"family": f.name(), "index_space": f.size(), "valid_members": n, "child_depth": cd, "seconds": run.elapsed() - t0}));
         if let Some(p) = (0..f.size()).step_by(((f.size() / 97).max(1)) as usize).filter_map(|i| f.get(i)).nth((run.seed % 5) as usize) {
             run.sample(json!({"kind": "family member", "family": f.name(), "fen": p.fen()}));
         }
@@ -150,8 +156,9 @@ pub fn run_plan<O: PosOracle>(run: &Arc<Run>, oracle: &Arc<O>, plan: &Plan) {
         for f in fams {
             seeds.extend(collect(&**f));
         }
+        let t0 = run.elapsed();
         let st = explore_closure(run, oracle, &seeds);
-        clo_notes.push(json!({"closure": name, "seed_states": seeds.len(), "unique_states_at_fixpoint": st.unique, "arrivals": st.generated, "max_depth": st.max_depth}));
+        clo_notes.push(json!({"closure": name, "seed_states": seeds.len(), "unique_states_at_fixpoint": st.unique, "arrivals": st.generated, "max_depth": st.max_depth, "seconds": run.elapsed() - t0}));
     }
     run.note("closures", json!(clo_notes));
 }
